@@ -47,7 +47,9 @@ LABELS = "ABCDEFGHIJKLMNOPQRSTUVWXYZ"
 
 def gen_plan(seed, tier, index=0, avoid=()):
     rng = random.Random(seed)
-    if rng.random() < 0.2:
+    if rng.random() < 0.02:
+        h, w = rng.randint(8, 30), rng.randint(11, 100)      # now and then a terminal of realistic size
+    elif rng.random() < 0.2:
         h, w = rng.randint(1, 3), rng.randint(1, 4)
     else:
         h, w = rng.randint(1, 7), rng.randint(1, 10)
